@@ -196,6 +196,10 @@ class Executor:
         self.purity_violations = []
         self.fork_sites = {}
         self._cheap = {}
+        self.compose_hook = self.opts.get('compose_hook', True)
+        dm = '(%s.Decimal).' % prog.pkg
+        self.compose_readers = {dm + 'decompose': 'decompose', dm + 'Signbit': 'neg', dm + 'isSpecial': 'false',
+                                dm + 'IsNaN': 'false', dm + 'isInf': 'false', dm + 'IsZero': 'zero'}
         self.fork_in = set(self.opts.get('fork_in', ('(%s.Decimal).decompose' % prog.pkg,)))
         self.global_reads = set()
         self.stop_on_violation = self.opts.get('stop_on_violation', True)
@@ -324,6 +328,10 @@ class Executor:
         st.noid += 1
         st.mem[oid] = val
         return oid
+
+    @staticmethod
+    def _kid(x):
+        return ('c', x) if isinstance(x, (int, bool)) else x.uid
 
     def cur_is_harness(self, st):
         f = st.frames[-1].fn
@@ -867,6 +875,32 @@ class Executor:
         cut = self.cuts.get(callee_name)
         if cut is not None:
             return cut(self, st, fr, ins, args)
+        if self.compose_hook and callee_name in self.compose_readers and args and isinstance(args[0], list) and len(args[0]) == 2:
+            d = args[0]
+            rec = st.ghost.get(('composed', self._kid(d[0]), self._kid(d[1])))
+            if rec is not None:
+                neg, sig, exp = rec
+                N = T.add(sig[0], T.mulc(sig[1], W64))
+                ok = T.band(T.ge(exp, 0), T.le(exp, 12287), T.le(N, 5 * (1 << 111) - 1))
+                v = 'trivial' if ok is True else None
+                if ok is not True:
+                    dd = self.decide(st, ok)
+                    if dd is True:
+                        v = 'trivial'
+                    else:
+                        v = self.prove(st, ok, 'check', 'compose called with a coefficient or exponent outside the format', ins.get('pos', ''))
+                if v in ('trivial', 'unsat'):
+                    self.add_pc(st, ok)
+                    self.used_summaries.add('compose/decompose round trip')
+                    what = self.compose_readers[callee_name]
+                    if what == 'decompose':
+                        return (list(sig), exp)
+                    if what == 'neg':
+                        return neg
+                    if what == 'false':
+                        return False
+                    if what == 'zero':
+                        return T.band(T.eq(sig[0], 0), T.eq(sig[1], 0))
         sm = self.summaries.get(callee_name)
         if sm is not None:
             self.used_summaries.add(callee_name)
@@ -906,6 +940,14 @@ class Executor:
         caller = st.frames[-1]
         if fr.ret is not None:
             caller.locals[fr.ret] = rv
+        if self.compose_hook and fr.fn.name == self.pkg + 'compose' and isinstance(rv, list):
+            # remember what this bit pattern was composed from (round trip contract, lemma vh_lemma_compose)
+            L = fr.locals
+            try:
+                key = ('composed', self._kid(rv[0]), self._kid(rv[1]))
+                st.ghost[key] = (L['neg'], L['sig'], L['exp'])
+            except KeyError:
+                pass
         caller.ip += 1
         st.just_returned = True
         st.last_ret = fr.ret
